@@ -52,17 +52,26 @@ def iNewOne (loops : List AssignLoop) (stream : Nat → Int) (call : Call) (pos 
 
 structure GRegs where
   current : Int                      -- self._current
-  saved : Int                        -- the local `val`
+  saved : Option Int                 -- the local `val` (unbound until `val = self._current` ran)
   ret : Option Int                   -- the value returned, if a return statement was executed
+  done : Bool                        -- a return statement was executed: nothing after it runs
 
 def iGStmt (readfunc : Int → Int) (r : GRegs) : GStmt → GRegs
   | .drawCurrent => { r with current := readfunc r.current }
-  | .saveCurrent => { r with saved := r.current }
-  | .returnCurrent => { r with ret := some r.current }
-  | .returnSaved => { r with ret := some r.saved }
+  | .saveCurrent => { r with saved := some r.current }
+  | .returnCurrent => { r with ret := some r.current, done := true }
+  | .returnSaved => { r with ret := r.saved, done := true }       -- an unbound `val` yields no value (NameError)
+
+/-- the statements in order; a `return` ENDS the method (statements after it do not run); a method that ends without a
+    return statement returns no value (`ret = none`, Python's None) -/
+def iGSteps (readfunc : Int → Int) : List GStmt → GRegs → GRegs
+  | [], r => r
+  | s :: rest, r =>
+    let r' := iGStmt readfunc r s
+    if r'.done then r' else iGSteps readfunc rest r'
 
 def iGRun (readfunc : Int → Int) (body : List GStmt) (current : Int) : GRegs :=
-  body.foldl (iGStmt readfunc) { current := current, saved := 0, ret := none }
+  iGSteps readfunc body { current := current, saved := none, ret := none, done := false }
 
 /-! ### equalities -/
 
@@ -261,10 +270,10 @@ theorem newOne_eq (stream : Nat → Int) (call : Call) (pos : Nat) (hwf : WF cal
 
 theorem intGen_eq (g : IntGen) :
     IntGen.init = { current := (iGRun (fun cur => cur + intIncrement) genInit intStart).current } ∧
-    IntGen.peek g = ((iGRun (fun cur => cur + intIncrement) genPeek g.current).ret).getD 0 ∧
+    (iGRun (fun cur => cur + intIncrement) genPeek g.current).ret = some (IntGen.peek g) ∧
     (iGRun (fun cur => cur + intIncrement) genPeek g.current).current = g.current ∧
-    IntGen.next g = (((iGRun (fun cur => cur + intIncrement) genNext g.current).ret).getD 0,
-                     { current := (iGRun (fun cur => cur + intIncrement) genNext g.current).current }) :=
-  ⟨rfl, rfl, rfl, rfl⟩
+    (iGRun (fun cur => cur + intIncrement) genNext g.current).ret = some (IntGen.next g).1 ∧
+    (IntGen.next g).2 = { current := (iGRun (fun cur => cur + intIncrement) genNext g.current).current } :=
+  ⟨rfl, rfl, rfl, rfl, rfl⟩
 
 end Pyx.NShape
